@@ -145,7 +145,7 @@ def _case(draw: Any, pid: str, max_depth: int) -> dict[str, Any]:
         # str(engine) is called: never / before the engine starts / after the first timestamp / both
         "show": draw(st.sampled_from([0, 0, 1, 2, 3])),
         # string route only: build the engine through a FormulaEnginePool on which another formula was started first
-        "pool": draw(st.integers(0, 2)) == 0,
+        "pool": draw(st.integers(0, 1)) == 0,
         "ws": draw(st.lists(st.sampled_from(["", " ", "  ", "\t", "\n"]), min_size=4, max_size=4)),
         "zeros": draw(st.lists(st.booleans(), min_size=NSTREAMS, max_size=NSTREAMS)) if pid == "C13"
         else [False] * NSTREAMS,
@@ -458,25 +458,28 @@ def _build_string(case: dict[str, Any], rig: _Rig) -> None:
         )
 
         pool = FormulaEnginePool("ns", registry, sub.new_sender())
-        ranked: list[tuple[float, str]] = [(2, text.replace("(", "").replace(")", ""))]
-        stack: list[int] = []
-        for pos, ch in enumerate(text):      # ... and the text with one pair of parentheses removed
-            if ch == "(":
-                stack.append(pos)
-            elif ch == ")" and stack:
-                start = stack.pop()
-                inner = text[start + 1:pos]
-                before = text[:start].rstrip()
-                # pairs that change the meaning come first: a group right of '/' or '-', or one holding a weaker operator
-                rank = 0 if before.endswith(("/", "-")) else 1 if before.endswith("*") and ("+" in inner or "-" in inner) else 3
-                ranked.append((rank, text[:start] + inner + text[pos + 1:]))
+        ranked: list[tuple[float, str]] = []
+        # derived from the text as generated and from the same tree written with the necessary parentheses only
+        for base in (text, _to_string(case["tree"], {**case, "style": "minimal", "ws": [""]})):
+            ranked.append((2, base.replace("(", "").replace(")", "")))
+            stack: list[int] = []
+            for pos, ch in enumerate(base):      # ... and the text with one pair of parentheses removed
+                if ch == "(":
+                    stack.append(pos)
+                elif ch == ")" and stack:
+                    start = stack.pop()
+                    inner = base[start + 1:pos]
+                    before = base[:start].rstrip()
+                    # pairs that change the meaning come first: a group right of '/' or '-', or one holding a weaker operator
+                    rank = 0 if before.endswith(("/", "-")) else 1 if before.endswith("*") and ("+" in inner or "-" in inner) else 3
+                    ranked.append((rank, base[:start] + inner + base[pos + 1:]))
         # ... each also the way one would normally type it (no blanks inside parentheses, one around each operator)
         ranked += [(rank + 0.5, re.sub(r"([-+*/])", r" \1 ", re.sub(r"\s+", "", d))) for rank, d in list(ranked)]
         decoys = []
         for _, d in sorted(ranked):
             if d != text and d not in decoys:
                 decoys.append(d)
-        for decoy in decoys[:6]:
+        for decoy in decoys[:8]:
             rig.keep.append(pool.from_string(decoy, ComponentMetricId.ACTIVE_POWER, nones_are_zeros=case["global_zero"]))
             rig.keep.append(str(rig.keep[-1]))
         rig.engine = pool.from_string(text, ComponentMetricId.ACTIVE_POWER, nones_are_zeros=case["global_zero"])
